@@ -29,7 +29,10 @@ CLAIM = dict(
          "argument, orthogonalize of a tall matrix of full column rank is an isometry with the same column space (E W is "
          "shown to have full column rank); inv needs no contract.  Necessity: U=E W is an isometry iff W is unitary; a "
          "legitimate SVD polar pair of a rank-deficient tall matrix can drop a frozen state (counterexample theorem) - "
-         "this is why the code orthogonalises the square matrix U_loc^H A.",
+         "this is why the code orthogonalises the square matrix U_loc^H A.  Explicit frozen_states: the list form applies to "
+         "every row of the mask array (every irreducible k-point whatever its global index), the dict form is keyed by the "
+         "GLOBAL k-point index; rewriting the list as a dict over positions 0..NKirr-1 is not equivalent (counterexample "
+         "kptirr=[0,1,3]).",
     note="Trusted: Lean kernel + Mathlib; the harness; the kernel contracts (checked numerically on every run by the oracle). "
          "PARTIAL: not modelled - the mix_ratio_u != 1 branch (declared untested by the code), site-symmetric symmetrisation "
          "of U and Z (sitesym=True), the centre/spread bookkeeping and the convergence test; these are oracle-only.",
@@ -47,6 +50,10 @@ TRUSTED = [
     "invertible; nothing is assumed for rank-deficient tall arguments",
     "not modelled (oracle only): mix_ratio_u != 1, wcc phases / spreads, convergence logic, init='restart', "
     "site-symmetric (sitesym=True) symmetrisation of U and Z",
+    "explicit frozen_states x site symmetry: checked on the diamond data (kptirr=[0,1,3]) in both tiers - list and dict "
+    "forms (keys = global indices, incl. an irreducible point with index >= NKirr), sitesym False/True, the three invariants "
+    "at every k-point of the full mesh (explicitly frozen bands required in the span on the whole star); dict keys that are "
+    "not irreducible k-points are ignored by the code under sitesym=True and are not exercised",
     "select_window_degen is the C15 model (WB.C15.selectWindow); energies are dyadic so float comparisons are exact",
     "valid inputs = at every k: #frozen <= num_wann <= #selected and frozen window inside the outer window "
     "(otherwise the code raises; the raise of the frozen-inside-selected assert is compared with the model)",
